@@ -11,7 +11,6 @@ use rocket::{routes, Config};
 
 use rocket::http::ContentType;
 use rocket::response::Responder;
-use std::collections::HashMap;
 use std::fmt::Debug;
 use std::net::IpAddr;
 
@@ -43,13 +42,39 @@ struct Message {
     pub session: SessionId,
 }
 
+/// The fields of a posted form in document order, names taken verbatim.\
+/// (A `HashMap<String, String>` form would let Rocket interpret the names as form paths: `a.b`, `a[b]`,
+/// `k:x`, `x:y` are then truncated, re-keyed or rejected.)
+struct RawFields(Vec<(String, String)>);
+
+#[rocket::async_trait]
+impl<'r> rocket::form::FromForm<'r> for RawFields {
+    type Context = Vec<(String, String)>;
+
+    fn init(_opts: rocket::form::Options) -> Self::Context {
+        Vec::new()
+    }
+
+    fn push_value(ctxt: &mut Self::Context, field: rocket::form::ValueField<'r>) {
+        ctxt.push((field.name.source().as_str().to_string(), field.value.to_string()));
+    }
+
+    async fn push_data(_ctxt: &mut Self::Context, _field: rocket::form::DataField<'r, '_>) {
+        // Files are not part of the Basic HTTP Event I/O Processor protocol.
+    }
+
+    fn finalize(ctxt: Self::Context) -> rocket::form::Result<'r, Self> {
+        Ok(RawFields(ctxt))
+    }
+}
+
 #[post("/scxml/<sessionid>", data = "<params>")]
 fn rocket_receive_event(
     sessionid: u32,
-    params: rocket::form::Form<HashMap<String, String>>,
+    params: rocket::form::Form<RawFields>,
     executor_state: &rocket::State<ExecutorStateArc>,
 ) -> (rocket::http::Status, String) {
-    let form_data = params.into_inner();
+    let form_data = params.into_inner().0;
 
     match executor_state.arc.lock() {
         Ok(state) => match state.sessions.get(&sessionid) {
